@@ -4,7 +4,7 @@
 // to two stacked operations, sub-expressions drawn from 8 scalar helpers with
 // named keys and nested array helpers) is compiled by the real KeyBuilder and
 // evaluated through BuildKey on every list of 0..3 elements over
-// {"", a, "b b", é}; the result must be a member of the set the reference list
+// {"", a, "b b", é, \xe9, \xc3, \xff}; the result must be a member of the set the reference list
 // model (ref.go) allows. The concurrent-evaluator part of C17 is decided
 // elsewhere.
 package main
@@ -364,9 +364,24 @@ func worker(w *runner.W) {
 		w.Add("programs", 1)
 		w.Add("programs_"+p.family, 1)
 		w.Max("max_helper_nesting", int64(p.node.depth()))
-		for _, x := range p.ctxs {
+		// the same compiled program over the matches in order; the small
+		// families also in reverse order (state kept inside a compiled stage
+		// between evaluations would show as a different answer)
+		seq := p.ctxs
+		if p.family != "chain2" && len(p.ctxs) > 1 {
+			seq = append([]ctx{}, p.ctxs...)
+			for i := len(p.ctxs) - 1; i >= 0; i-- {
+				seq = append(seq, p.ctxs[i])
+			}
+		}
+		for si := range seq {
+			x := seq[si]
 			cur = Case{p.family, tmpl, x, p.node}
-			want := ref(p.node, env{g: x.G, keys: x.K})
+			id := &p.ctxs[si%len(p.ctxs)]
+			if si >= len(p.ctxs) {
+				id = &p.ctxs[2*len(p.ctxs)-1-si]
+			}
+			want := ref(p.node, env{g: x.G, keys: x.K, id: id})
 			if want.skip {
 				w.Add("not_executed_model_predicts_nontermination", 1)
 				continue
@@ -386,7 +401,7 @@ func worker(w *runner.W) {
 			}
 			w.Outcome(p.node.S, r.got)
 			if nontrivial && w.WantSample() && p.family == "chain2" && strings.Count(r.got, nul) >= 2 && programNo%97 < int64(w.N) {
-				w.Sample(map[string]any{"template": tmpl, "groups": x.G, "result": r.got})
+				w.Sample(map[string]any{"template": tmpl, "match": x, "result_go_quoted": strconv.Quote(r.got)})
 			}
 		}
 		return true
@@ -418,7 +433,7 @@ func main() {
 			if tier != "thorough" {
 				ll, ix, sl = "0..2", "-3..3", "4"
 			}
-			return "programs: 20 sources ({0}; @split of the joined list by {default, ',', '::', ' ', 'é', 'ab'}; {@ ..}/{$ ..} of groups, of list+element, of constants; 4 @range; 2 @for) x chains of 0, 1 and 2 operations out of {@len; @join default/''/5 delimiters; @split default/5 delimiters; @map with 11 sub-expressions; @filter with 9; @reduce with 7 x initial {unset, '', I, 0}; @select index " + ix + "; @slice start " + ix + " x length {unset, " + ix + "}} (sub-expressions: {0} {1} {-1} named keys, upper len sumi eq not if coalesce lt, nested @split/@join/@map/@len/@in), each on every list of " + ll + " elements over {'', a, 'b b', é}; plus @split/@join/@len/@select/@slice on every string of length <= " + sl + " over {a : , é} with delimiters {',', '::', 'é', 'aa', 'a:', ':,:'}; @range with 1-3 constant and dynamic arguments in " + ix + " and non-numbers; 252 @for loops (4 starts x 9 conditions x 7 increments) alone and under @len/@join; @in over 12 constant arrays x 10 values. Every program is compiled by NewStdKeyBuilder (optimising) and evaluated through BuildKey; one case = (program, match). non-trivial = the result is constrained by the statement, is not an error marker and agrees with the model"
+			return "programs: 20 sources ({0}; @split of the joined list by {default, ',', '::', ' ', 'é', 'ab'}; {@ ..}/{$ ..} of groups, of list+element, of constants; 4 @range; 2 @for) x chains of 0, 1 and 2 operations out of {@len; @join default/''/5 delimiters; @split default/5 delimiters; @map with 11 sub-expressions; @filter with 9; @reduce with 7 x initial {unset, '', I, 0}; @select index " + ix + "; @slice start " + ix + " x length {unset, " + ix + "}} (sub-expressions: {0} {1} {-1} named keys, upper len sumi eq not if coalesce lt, nested @split/@join/@map/@len/@in), each on every list of " + ll + " elements over {'', a, 'b b', é, and the non-UTF-8 bytes \\xe9, \\xc3, \\xff} (results compared byte for byte); plus @split/@join/@len/@select/@slice on every string of length <= " + sl + " over {a : , é \\xe9 \\xc3 \\xff} with delimiters {',', '::', 'é', 'aa', 'a:', ':,:'}; @range with 1-3 constant and dynamic arguments in " + ix + " and non-numbers; 252 @for loops (4 starts x 9 conditions x 7 increments) alone and under @len/@join; @in over 12 constant arrays x 10 values. Every program is compiled by NewStdKeyBuilder (optimising) and evaluated through BuildKey; one case = (program, match). non-trivial = the result is constrained by the statement, is not an error marker and agrees with the model"
 		},
 		Assumptions: func(string) []string {
 			return []string{
